@@ -58,6 +58,7 @@ pub fn det_families() -> Vec<&'static str> {
 
 pub mod live_park;
 pub mod live_join;
+pub mod live_rwlock;
 pub mod live_life;
 pub mod live_cancel;
 pub mod live_io;
@@ -76,6 +77,7 @@ pub fn build_live(family: &str, rng: &mut Rng, tier: u32) -> Option<LiveBuilt> {
     match family {
         "park" => Some(live_park::build(rng, tier)),
         "join" => Some(live_join::build(rng, tier)),
+        "rwlock_live" => Some(live_rwlock::build(rng, tier)),
         "life" => Some(live_life::build(rng, tier)),
         "cancel" => Some(live_cancel::build(rng, tier)),
         "cancel_mutex" => Some(live_cancel::build_mutex(rng, tier)),
